@@ -363,22 +363,33 @@ class C10(Check):
                     sigbase = f"align{'-guessed' if guess else ''}/{role}/{tagi}"
                     cls = (f"alignguess/{ns}x{ne}/{tagi}" if guess
                            else f'align/{ns}x{ne}/len{len(lst)}/{tagi}')
-                    try:
-                        ali.align_molecules(None if guess else list(lst), None, bool(ign))
-                    except Exception as exc:
-                        R.case(cdesc, nontrivial=bool(user), outcome='raised', cls=cls)
-                        R.violation(f'{sigbase}/raised', cdesc, f'{type(exc).__name__}: {exc}')
-                        continue
-                    if len(rec) != 1:
-                        R.case(cdesc, nontrivial=bool(user), outcome=f'optimiser-calls-{len(rec)}', cls=cls)
-                        R.violation(f'{sigbase}/optimiser-not-called-once', cdesc, f'{len(rec)} calls')
-                        continue
-                    sig, det, kept = self._judge(rec[0], user, ign, names_s, names_e, rule_start_fixed, R,
-                                                 ordered=not guess)
-                    R.case(cdesc, nontrivial=bool(user), cls=cls,
-                           outcome=('defect' if sig else f'kept{kept}of{min(len(user), 9)}'))
-                    if sig:
-                        R.violation(f'{sigbase}/{sig}', cdesc, det)
+                    # the user's own list object is handed to TWO consecutive runs: the second run
+                    # must designate the same atoms as the first (the list must not be consumed)
+                    user_obj = None if guess else list(lst)
+                    sig = None
+                    for run in (1, 2):
+                        del rec[:]
+                        sfx = '' if run == 1 else '/second-run-with-same-list'
+                        try:
+                            ali.align_molecules(user_obj, None, bool(ign))
+                        except Exception as exc:
+                            R.case(cdesc, nontrivial=bool(user), outcome='raised', cls=cls)
+                            R.violation(f'{sigbase}/raised{sfx}', cdesc, f'{type(exc).__name__}: {exc}')
+                            sig = 'raised'
+                            break
+                        if len(rec) != 1:
+                            R.case(cdesc, nontrivial=bool(user), outcome=f'optimiser-calls-{len(rec)}', cls=cls)
+                            R.violation(f'{sigbase}/optimiser-not-called-once{sfx}', cdesc, f'{len(rec)} calls')
+                            sig = 'calls'
+                            break
+                        sig, det, kept = self._judge(rec[0], user, ign, names_s, names_e, rule_start_fixed, R,
+                                                     ordered=not guess)
+                        if run == 1:
+                            R.case(cdesc, nontrivial=bool(user), cls=cls,
+                                   outcome=('defect' if sig else f'kept{kept}of{min(len(user), 9)}'))
+                        if sig:
+                            R.violation(f'{sigbase}/{sig}{sfx}', cdesc, det)
+                            break
 
     @staticmethod
     def _judge(record, user, ign, names_s, names_e, rule_start_fixed, R, ordered=True):
@@ -670,6 +681,46 @@ class C10(Check):
         R.case(case, nontrivial=nondefault, outcome=sig or f'routed-{len(calls)}', cls=cls)
         if sig:
             R.violation(f'{sigbase}/{sig}', case, det + f' | all calls {calls!r}'[:1200])
+            return
+        # -- the documented pre-parsed path: restraints validated once with parse_restrictions(), then
+        #    handed over with parse_restrictions=False, in another key order or for a subset of species
+        try:
+            parsed = man.parse_restrictions(args[0])
+        except Exception as exc:
+            R.violation(f'{sigbase}/preparsed/parse_restrictions-raised', case, repr(exc))
+            return
+        names = list(parsed)
+        variants = [names[::-1]] + [[n] for n in names] + ([names[1:] + names[:1]] if len(names) > 2 else [])
+        for order in variants:
+            sub = {n: parsed[n] for n in order}
+            del calls[:]
+            with patched(Alignment, 'align_molecules', recorder), quiet_stdout():
+                try:
+                    man.align_molecules(sub, args[1], args[2], parse_restrictions=False)
+                except Exception as exc:
+                    R.violation(f'{sigbase}/preparsed/valid-options-raised', case, f'{order}: {exc!r}')
+                    return
+            R.add('manager_preparsed_variants', 1)
+            for cname, gr, gd, gi in calls:
+                s = [x for x in species if SPECIES[x][0] == cname]
+                if not s or cname not in order:
+                    R.violation(f'{sigbase}/preparsed/species-not-requested-was-aligned', case, f'{order}: {calls!r}'[:800])
+                    return
+                r, d, g = opt[s[0]]
+                wantd = D_VALUES[d] if d else None
+                wantg = G_VALUES[g] if g else True
+                okd = (gd is None) if wantd is None else (gd is not None and hasattr(gd, '__len__') and tuple(gd) == wantd)
+                okg = isinstance(gi, (bool, np.bool_)) and bool(gi) == wantg
+                okr = (gr is None and parsed[cname] is None) or (gr is not None and parsed[cname] is not None and
+                                                                 [tuple(q) for q in gr] == [tuple(q) for q in parsed[cname]])
+                if not (okd and okg and okr):
+                    what = 'deformation' if not okd else ('ignore-hydrogens' if not okg else 'restrictions')
+                    R.violation(f'{sigbase}/preparsed/wrong-{what}', case,
+                                f'key order {order}: species {cname} received {(gr, gd, gi)!r}'[:800])
+                    return
+            if sorted(c[0] for c in calls) != sorted(order):
+                R.violation(f'{sigbase}/preparsed/requested-species-not-aligned-once', case, f'{order}: {calls!r}'[:800])
+                return
 
 
 CHECK = C10()
